@@ -351,6 +351,10 @@ void register_all()
 #ifndef VF_NO_HILBERT
     Hilbert<std::size_t>::reg();
     Hilbert<unsigned>::reg();
+    Hilbert<int>::reg();
+    Hilbert<uint16_t>::reg();   // coordinates < 1024 fit; positions (up to 4^10) do not: they must not be computed in the coordinate type
+    Morton<uint16_t, 2, false>::reg();
+    Morton<uint16_t, 4, true>::reg();
 #endif
 }
 }   // namespace
